@@ -748,6 +748,34 @@ def c12(tier):
         for lbl, k, where, detail in recs:
             v.violation(f"C12|differs|across=other-inputs-earlier-in-the-process|where={where}", {"input": lbl, "detail": detail})
     executions += history_calls
+    # the command line program writing over what an earlier run left at the output path: inputs X and Y into one path, in both
+    # orders and twice each — the file must hold exactly what a run into a fresh path gives (the library's bytes for that input)
+    zeep_bin = common.build_zeep_bin()
+    cli_runs = 0
+    cli_labels = [lbl for lbl in hist_labels if lbl.startswith(("synth-wsdl", "shared-namespace:"))][: 8 if tier == "quick" else 40]
+    cdir = os.path.join(scratchdir, "cli")
+    for a, b in zip(cli_labels, cli_labels[1:] + cli_labels[:1]):
+        d = os.path.join(cdir, hashlib.sha1((a + b).encode()).hexdigest()[:10])
+        out_path = os.path.join(d, "out.rs")
+        for which, lbl in enumerate((a, b, a, a)):
+            files, start, ref_sha, ref_text = refs[lbl]
+            ind = os.path.join(d, f"in{which}")
+            os.makedirs(ind, exist_ok=True)
+            for n, c in files.items():
+                with open(os.path.join(ind, n), "w", encoding="utf-8") as f:
+                    f.write(c)
+            try:
+                pr = subprocess.run([zeep_bin, "--input", os.path.join(ind, start), "--output", out_path], stdout=subprocess.PIPE, stderr=subprocess.PIPE,
+                                    timeout=120, env=dict(common.ENV, RUST_BACKTRACE="0"))
+            except subprocess.TimeoutExpired:
+                continue
+            cli_runs += 1
+            got = open(out_path, "rb").read() if os.path.exists(out_path) else b""
+            if pr.returncode != 0 or hashlib.sha256(got).hexdigest() != ref_sha:
+                v.violation("C12|differs|across=what-an-earlier-run-left-at-the-output-path|where="
+                            + ("run-failed" if pr.returncode != 0 else ("longer-than-fresh" if len(got) > len(ref_text.encode()) else _diff_class(ref_text, got.decode("utf-8", "replace")))),
+                            {"input": lbl, "earlier_inputs_at_this_path": [a, b, a, a][:which], "bytes": len(got), "fresh_bytes": len(ref_text.encode())})
+    executions += cli_runs
     import shutil
     shutil.rmtree(scratchdir, ignore_errors=True)
     multi_op = sum(1 for lbl in distinct_outputs if "synth" in lbl or "generated" in lbl or lbl.endswith((".wsdl", "_wsdl.xml")))
@@ -759,12 +787,14 @@ def c12(tier):
                 "parts=; per input: N fresh processes (fresh hash seeds), 4 threads x 3 repeated read_xml calls on one FilesToRead, "
                 "a call history of length 3, every/8 registration orders of the file set, and the directory-enumerating helper; then histories of "
                 "3-6 *different* accepted inputs in one process (random ones, and all orders of four small sets that share a namespace but "
-                "give it different prefixes), each output compared with the fresh-process output of that input; inputs that are "
+                "give it different prefixes), each output compared with the fresh-process output of that input; then the command line program writing two inputs into one output path in turn "
+                "(the file must equal the fresh output each time); inputs that are "
                 "refused (repository files zeep cannot read, and five hand-made failing sets) get call histories and threads as well and "
                 "must be refused the same way each time; "
                 "oracle = SHA-256 equality with the first output. evaluations = generator executions compared; "
                 "distinct_nontrivial = accepted inputs that are WSDLs (>= 2 operations or parts, where a hash-order dependence "
                 "can show at all)",
+        "command_line_runs_over_an_earlier_output": cli_runs,
         "histories_over_different_inputs_in_one_process": len(histories) - histories_cut_short, "calls_in_those_histories": history_calls,
         "histories_cut_short_by_a_dying_process": histories_cut_short,
         "inputs_total": len(inputs), "inputs_accepted": accepted, "refused_inputs_checked_for_stable_outcome": rejected_checked, "fresh_processes_per_input": n_proc,
@@ -865,7 +895,7 @@ def c15(tier):
         "rule": "for each accepted document (repository schemas/WSDLs, synthetic WSDLs, four single-emitter minis) write_xml runs on "
                 "a sink that fails at write call k, for every k when the document has <= max_all write calls (else first/last "
                 "max_all/2 plus a seeded sample), x {fail once then healthy, fail forever} x error kinds {Other, WriteZero, BrokenPipe, "
-                "StorageFull, WouldBlock, TimedOut, PermissionDenied} (all kinds for small documents and k<64, one rotating kind otherwise); expected outcome: "
+                "StorageFull, WouldBlock, TimedOut, PermissionDenied, NotFound, InvalidData, InvalidInput, UnexpectedEof, AlreadyExists, ConnectionReset, Unsupported, OutOfMemory} (all kinds for small documents and k<64, one rotating kind otherwise); expected outcome: "
                 "Err(WriterError::Io), never Ok, never panic; plus 4 short-write patterns whose collected bytes must equal the "
                 "unconstrained output; plus sinks with room for only a part of the text (up to each scanned write call, into the middle of it, "
                 "and every byte count of the last 64) that accept nothing afterwards (Ok(0), like &mut [u8]): expected Err(Io) as well. evaluations = injected failures; distinct_nontrivial = distinct (document, written chunk) "
